@@ -5,6 +5,7 @@ package blockchain
 import (
 	"bytes"
 
+	"github.com/LiskHQ/lisk-engine/pkg/codec"
 	"github.com/LiskHQ/lisk-engine/pkg/crypto"
 )
 
@@ -31,4 +32,41 @@ func zzH_C08_block_id_stable(t *zzT) {
 	hdr, err := NewBlockHeader(b.Header.Encode())
 	t.Assert(err == nil && bytes.Equal(hdr.ID, b.Header.ID), "decoding the stored header yields the same ID")
 	t.Reach("accepted")
+}
+
+// C08 "a transaction ID is the hash of exactly the accepted bytes; block and transaction IDs are unchanged by
+// store/load and by re-encoding": Init() is what (re)establishes the ID of an object that did not come from
+// NewTransaction / NewBlock — an object unmarshalled from JSON (the exported ID field is filled by the sender),
+// or one changed after a first Init (a signature appended). Whatever ID and size the object carries before,
+// after Init the ID is the hash of its encoding and Size is the length of its encoding; the same for block
+// headers. (seed C08-7 made Transaction.Init return early when a 32-byte ID is already present.)
+//
+//zz:opt loop=64
+func zzH_C08_init_recomputes_id(t *zzT) {
+	tx := &Transaction{Module: "token", Command: "transfer", Nonce: uint64(t.U8("nonce")), Fee: 1000, SenderPublicKey: t.Bytes("sender", 32),
+		Params: t.Bytes("params", 1), Signatures: []codec.Hex{t.Bytes("sig", 64)}}
+	switch t.Choice("before", 3) {
+	case 0: // fresh object
+	case 1: // an ID supplied from outside (JSON), not the hash of anything
+		tx.ID = t.Bytes("supplied.id", 32)
+	default: // initialised once, then changed
+		tx.Init()
+		tx.Signatures = append(tx.Signatures, t.Bytes("sig2", 64))
+	}
+	tx.Init()
+	enc := tx.Encode()
+	t.Assert(bytes.Equal(tx.ID, crypto.Hash(enc)), "after Init the transaction ID is the hash of the transaction's encoding")
+	t.Assert(tx.Size() == len(enc), "after Init Size is the length of the encoding")
+	re, err := NewTransaction(enc)
+	t.Assert(err == nil && bytes.Equal(re.ID, tx.ID), "the ID is unchanged by store/load (decode of the encoding)")
+
+	h := &BlockHeader{Version: 2, Timestamp: 1700000000, Height: uint32(t.U8("h")), PreviousBlockID: t.Bytes("prev", 32), GeneratorAddress: t.Bytes("gen", 20),
+		TransactionRoot: bytes.Repeat([]byte{1}, 32), AssetRoot: bytes.Repeat([]byte{2}, 32), EventRoot: bytes.Repeat([]byte{3}, 32), StateRoot: bytes.Repeat([]byte{4}, 32),
+		ValidatorsHash: bytes.Repeat([]byte{5}, 32), AggregateCommit: &AggregateCommit{AggregationBits: []byte{}, CertificateSignature: []byte{}}, Signature: t.Bytes("hsig", 64)}
+	if t.Bool("header.id.supplied") {
+		h.ID = t.Bytes("header.supplied.id", 32)
+	}
+	h.Init()
+	t.Assert(bytes.Equal(h.ID, crypto.Hash(h.Encode())), "after Init the block ID is the hash of the header's encoding")
+	t.Reach("end")
 }
